@@ -4,7 +4,9 @@ Enumerates signatures (<=3 parameters, every default mask) x call shapes (which 
 given, positional/named split, named order) x argument values x call forms; every program is
 parsed and run on the real interpreter; oracle = Python-like binder.
 Further families live in c08_more.py (overriding flows with another signature, calls inside and/or groups, `global`
-declarations that only some instances reach / that follow a local use) and run in the same quick/thorough tiers.
+declarations that only some instances reach / that follow a local use) and in c08_calls.py (chains of nested calls: direct
+and mutual recursion, flows with the same parameter names; argument expressions that give another value per evaluation) and run
+in the same quick/thorough tiers.
 """
 from __future__ import annotations
 
@@ -449,10 +451,11 @@ def first_combo(combo):
 
 
 def _more(tagged):
-    from vf.props import c08_more
+    from vf.props import c08_calls, c08_more
 
     kind, task = tagged
-    return kind, {"ovr": c08_more.check_override, "group": c08_more.check_group, "scope": c08_more.check_scope}[kind](task)
+    return kind, {"ovr": c08_more.check_override, "group": c08_more.check_group, "scope": c08_more.check_scope,
+                  "nested": c08_calls.check_nested, "eval": c08_calls.check_eval}[kind](task)
 
 
 def run(rep, tier):
@@ -484,11 +487,12 @@ def run(rep, tier):
         rep.set("scenario_programs", r["programs"])
         for sig, what, info in r["viol"]:
             rep.violation(sig, what, info)
-    from vf.props import c08_more
+    from vf.props import c08_calls, c08_more
 
     ots, gts, sts = c08_more.ovr_tasks(tier), c08_more.group_tasks(tier), c08_more.scope_tasks(tier)
-    tagged = [("ovr", t) for t in ots] + [("group", t) for t in gts] + [("scope", t) for t in sts]
-    ovr_differs = scope_steps = scope_mixed = 0
+    nts, ets = c08_calls.nested_tasks(tier), c08_calls.eval_tasks(tier)
+    tagged = [("ovr", t) for t in ots] + [("group", t) for t in gts] + [("scope", t) for t in sts] + [("nested", t) for t in nts] + [("eval", t) for t in ets]
+    ovr_differs = scope_steps = scope_mixed = nested_omitting = nested_steps = eval_steps = 0
     for kind, r in par.pmap(_more, tagged, chunksize=max(1, len(tagged) // 300)):
         agg["programs"] += r["programs"]
         agg["steps"] += r["steps"]
@@ -500,12 +504,20 @@ def run(rep, tier):
             for k in ("defaults_used", "named", "positional"):
                 agg[k] += r[k]
             ovr_differs += r.get("differs", 0)
+            nested_omitting += r.get("inner_omits_what_the_caller_holds", 0)
+            nested_steps += r["steps"] if kind == "nested" else 0
+            eval_steps += r["steps"] if kind == "eval" else 0
             nontrivial += 1 if (r["defaults_used"] or r["named"] or r["positional"]) else 0
         for sig, what, info in r["viol"]:
             rep.violation(sig, what, info)
     rep.set("group_member_programs", len(gts))
     rep.set("override_programs", len(ots))
     rep.set("override_programs_with_a_different_signature", ovr_differs)
+    rep.set("nested_call_programs", len(nts))
+    rep.set("nested_call_programs_whose_inner_calls_omit_a_parameter_the_caller_holds", nested_omitting)
+    rep.set("nested_call_interpreter_steps", nested_steps)
+    rep.set("argument_evaluation_programs", len(ets))
+    rep.set("argument_evaluation_interpreter_steps", eval_steps)
     rep.set("scope_cases", len(sts))
     rep.set("scope_interpreter_steps", scope_steps)
     rep.set("scope_cases_with_declared_and_local_readers", scope_mixed)
@@ -523,19 +535,32 @@ def run(rep, tier):
                     "(quick: 4 fixed placement/form pairs per shape, thorough: the product). Group family: <=2 parameters x masks x strict shapes x "
                     f"{list(c08_more.GROUP_FORMS)}. Scope family (case = program + event order): `global $x` slots of the worker {list(c08_more.SLOT_KINDS)}^3 (quick: at most one slot filled) x workers taking the "
                     f"conditional declaration x caller {list(c08_more.MAIN_VARIANTS)} x helper {list(c08_more.HELPERS)} x event orders (quick 2, thorough all 6 interleavings), a Tick after every event; "
-                    "non-trivial there = an instance that has declared the global and one that has not both read $x")
+                    "non-trivial there = an instance that has declared the global and one that has not both read $x. "
+                    f"Nested family: chains main -> L0 -> L1 -> L2 of kinds {list(c08_calls.NEST_KINDS)} (flows {[list(v) for v in c08_calls.NEST_KINDS.values()]}, all with the parameters `$d $p0 [$p1]`, main holds locals "
+                    f"of these names) x <=2 parameters x default masks x shape of the outermost call (quick: all positional / all named / nothing given; thorough: every strict shape) x shape of the inner calls (every strict "
+                    f"and loose shape) x inner call forms {list(c08_calls.NEST_FORMS)}; per level: binding, unchanged variables after the callee assigned to its own, return value. "
+                    f"Argument-evaluation family: argument patterns {list(c08_calls.PATTERNS)} (E = expression that gives another value per evaluation, L = literal) x expressions {[v[0] for v in c08_calls.EXPR_KINDS.values()]} x "
+                    f"texts {list(c08_calls.TEXTS)} x call forms {list(c08_calls.EVAL_FORMS)} x number of positional arguments x named order")
     rep.set("exhaustive", True)
     rep.assumptions += ["group members that only serve as the other member of an or-group run in their own interaction loop (their `send` would compete with the callee's)",
                         "what `$x = await a or b` assigns and what a flow that ends without `return` hands to `$x = await flow` are not covered by the statement (it speaks of `$x = await flow` and of the value given to `return`)",
                         "override / scope families: an overriding flow is bound by its own declaration; a variable is global for an instance from the moment that instance executes `global $x`",
                         "calls that pass surplus arguments are outside the statement (C10 has them as fault kinds); a parameter omitted without declared default is only required not to take another parameter's value",
-                        "`$self`, `$system` and `$context` are documented / explicitly rejected special names and are not used as parameter names",
+                        "`$self`, `$system` and `$context` are documented / explicitly rejected special names and are not used as parameter names "
+                        "(docs/colang_2/language_reference/working-with-variables-and-expressions.rst, 'Built-in Flow Variables': names that 'cannot be used as custom variable names in a flow'; `$self` is the built-in reference to the instance)",
+                        "argument-evaluation family: n argument expressions are n evaluations in the caller; the ORDER in which the arguments of one call are evaluated is not part of the statement (any order is accepted); "
+                        "for `start` / `await` only what the callee received is judged there (the caller staying parked when an argument expression is not repeatable is the recorded finding argument-expression-changes-after-the-call)",
+                        "nested family: a parameter omitted without declared default must in particular not take the value the calling instance holds under that name (same weak oracle as the loose shapes)",
                         "callee echoes its parameters in an event; sibling runs in its own interaction loop so that its `send` does not compete"]
     rep.sample({"program": program(*ts[len(ts) // 2])})
     rep.sample({"call": call_text(ts[-1][2], ts[-1][3]), "signature": signature_text(ts[-1][0], ts[-1][1]), "form": ts[-1][4]})
     o = ots[len(ots) // 2]
     osrc, oextra = c08_more.ovr_sources(*o)
     rep.sample({"family": "override", "program": osrc, "second_source": list(oextra)})
+    nt = nts[len(nts) // 2]
+    rep.sample({"family": "nested", "program": c08_calls.nested_program(*nt)})
+    et = ets[len(ets) // 3]
+    rep.sample({"family": "argument-evaluation", "program": c08_calls.eval_program(*et)[0]})
     sc = sts[len(sts) // 2]
     rep.sample({"family": "scope", "program": c08_more.scope_program(*sc[:4]), "events": [list(e) for e in sc[4]],
                 "expected_per_step": [[list(ev), [list(x) for x in out]] for ev, out in c08_more.scope_model(*sc)[0]]})
@@ -564,6 +589,9 @@ def replay(rp):
             print(sig, ":", what)
         print(rp.get("what"))
         return 0
+    if rp.get("engine") in ("C08-nested", "C08-eval"):
+        from vf.props import c08_calls
+        return c08_calls.replay(rp)
     if rp.get("engine") in ("C08-ovr", "C08-scope", "C08-group"):
         from vf.props import c08_more
         return c08_more.replay(rp)
